@@ -811,7 +811,8 @@ class PDFPageInterpreter:
             n = 1
 
         if n == 1:
-            gray = self.pop(1)[0]
+            values = self.pop(1)
+            gray = values[0] if values else None
             gray_f = safe_float(gray)
             if gray_f is None:
                 log.warning(
@@ -822,7 +823,7 @@ class PDFPageInterpreter:
 
         elif n == 3:
             values = self.pop(3)
-            rgb = safe_rgb(*values)
+            rgb = safe_rgb(*values) if len(values) == 3 else None
             if rgb is None:
                 log.warning(
                     f"Cannot set RGB stroke color because not all values in {values!r} can be parsed as floats"
@@ -832,7 +833,7 @@ class PDFPageInterpreter:
 
         elif n == 4:
             values = self.pop(4)
-            cmyk = safe_cmyk(*values)
+            cmyk = safe_cmyk(*values) if len(values) == 4 else None
 
             if cmyk is None:
                 log.warning(
@@ -856,7 +857,8 @@ class PDFPageInterpreter:
             n = 1
 
         if n == 1:
-            gray = self.pop(1)[0]
+            values = self.pop(1)
+            gray = values[0] if values else None
             gray_f = safe_float(gray)
             if gray_f is None:
                 log.warning(
@@ -867,7 +869,7 @@ class PDFPageInterpreter:
 
         elif n == 3:
             values = self.pop(3)
-            rgb = safe_rgb(*values)
+            rgb = safe_rgb(*values) if len(values) == 3 else None
 
             if rgb is None:
                 log.warning(
@@ -878,7 +880,7 @@ class PDFPageInterpreter:
 
         elif n == 4:
             values = self.pop(4)
-            cmyk = safe_cmyk(*values)
+            cmyk = safe_cmyk(*values) if len(values) == 4 else None
 
             if cmyk is None:
                 log.warning(
